@@ -104,10 +104,7 @@ Scalar MASA::cp_normal<Scalar>::eval_likelyhood(Scalar x)
     }
   av = av / (Scalar)vec_data.size();
   
-  //set x_bar to average of data vector
-  this->set_var("x_bar",av);
-  
-  likelyhood = exp(-(vec_data.size()/(2*pow(Scalar(sigma_d),2)))*pow((x-x_bar),2));
+  likelyhood = exp(-(vec_data.size()/(2*pow(Scalar(sigma_d),2)))*pow((x-av),2));
   return likelyhood;
 }
 
@@ -126,10 +123,7 @@ Scalar MASA::cp_normal<Scalar>::eval_loglikelyhood(Scalar x)
     }
   av = av / (Scalar)vec_data.size();
   
-  //set x_bar to average of data vector
-  this->set_var("x_bar",av);
-  
-  loglikelyhood = -(vec_data.size()/(2*pow(sigma_d,2)))*pow((x-x_bar),2);
+  loglikelyhood = -(vec_data.size()/(2*pow(sigma_d,2)))*pow((x-av),2);
   return loglikelyhood;
 }
 
@@ -163,11 +157,8 @@ Scalar MASA::cp_normal<Scalar>::eval_posterior(Scalar x)
     }
   av = av / (Scalar)vec_data.size();
 
-  //set x_bar to average of data vector
-  this->set_var("x_bar",av);
-  
   sigmap = sqrt(1/((1/pow(sigma,2)) + (Scalar(vec_data.size())/pow(sigma_d,2))));
-  mp     = pow(sigmap,2) * (m/pow(sigma,2) + (Scalar(vec_data.size())*x_bar/pow(sigma_d,2)));
+  mp     = pow(sigmap,2) * (m/pow(sigma,2) + (Scalar(vec_data.size())*av/pow(sigma_d,2)));
   post   = exp(-(1/(2*pow(sigmap,2)))*pow((x-mp),2)) / sqrt(2*pi*pow(sigmap,2));
 
   return post;
@@ -206,8 +197,16 @@ Scalar MASA::cp_normal<Scalar>::eval_post_mean()
   using std::pow;
 
   Scalar mean;
+  Scalar av = 0;
+
+  for(int it = 0;it<int(vec_data.size());it++)
+    {
+      av +=vec_data[it];
+    }
+  av = av / (Scalar)vec_data.size();
+
   Scalar sigmap = sqrt(1/((1/pow(sigma,2)) + (Scalar(vec_data.size())/pow(sigma_d,2))));
-  mean     = pow(sigmap,2) * (m/pow(sigma,2) + (Scalar(vec_data.size())*x_bar/pow(sigma_d,2)));  
+  mean     = pow(sigmap,2) * (m/pow(sigma,2) + (Scalar(vec_data.size())*av/pow(sigma_d,2)));  
   return mean;
 }
 
